@@ -17,7 +17,7 @@ Definition to_bam (r : sam_rec) : Bam.Record.record :=
   Bam.Record.mkRecord (r_name r) (r_flags r) (r_rid r) (opt_pos (r_pos r)) (opt_mapq (r_mapq r))
     (r_cigar r) (r_mrid r) (opt_pos (r_mpos r)) (r_tlen r) (r_seq r) (r_qual r) [].
 
-Lemma to_bam_wf fmt32 fmtd32 r : wf_rec fmt32 fmtd32 r -> Bam.CodecProofs.wf (to_bam r).
+Lemma to_bam_wf r : wf_rec r -> Bam.CodecProofs.wf (to_bam r).
 Proof.
   intros (Wf & Wq & Wc & Wt & _ & _). unfold Bam.CodecProofs.wf, to_bam. cbn.
   repeat split; try lia.
@@ -43,7 +43,7 @@ Section FloatOracle.
   Hypothesis H_dc : forall b, PR (fmtd32 b).
 
   Theorem sam_bam_agree refs nref r t block :
-    wf_refs refs -> wf_rec fmt32 fmtd32 r ->
+    wf_refs refs -> wf_rec r ->
     r_data r = [] -> r_qual r <> [9] ->
     Bam.Record.lenN (r_cigar r) <= 65535 ->
     write_record fmt32 fmtd32 refs r = Some t ->
@@ -55,6 +55,6 @@ Section FloatOracle.
     - rewrite (record_roundtrip fmt32 fmtd32 parse32 parse32p H_f H_fc H_d H_dc refs r t WR W HW).
       f_equal. rewrite norm_rec_id by now apply norm_qual_not9. now apply norm_i_nodata.
     - apply (Bam.CodecProofs.decode_encode_nodata nref (to_bam r) block); auto.
-      now apply (to_bam_wf fmt32 fmtd32).
+      now apply to_bam_wf.
   Qed.
 End FloatOracle.
